@@ -7,6 +7,7 @@ TL, RM = 'time-limited', 'removal-marker'
 DELIMS = [('<', '>'), ('<!-- <', '> -->'), ('/* <', '> */'), ('【', '】'), ('<<', '>>')]
 NOW = '2024-06-15T12:00:00+00:00'
 PAST, FUTURE = '2020-01-01 00:00:00', '2030-01-01 00:00:00'
+WS = ' \t\r\n'      # the only white space the properties know: space, tab, line breaks (NOT U+3000, U+00A0, form feed ...)
 
 
 def cfg(**kw):
@@ -16,7 +17,7 @@ def cfg(**kw):
 
 
 def nonblank_lines(s):
-    return [l.strip() for l in s.split('\n') if l.strip()]
+    return [l.strip(WS) for l in s.split('\n') if l.strip(WS)]
 
 
 # ------------------------------------------------------------------ generators: each yields (request, oracle)
@@ -356,7 +357,8 @@ def gen_blocks(seed, big):
     counter = [0]
     def line():
         counter[0] += 1
-        return f'L{counter[0]} é'
+        # now and then a blank-looking character that is NOT white space (U+3000, U+00A0): it must survive like a letter
+        return rnd.choice([f'L{counter[0]} é'] * 5 + [f'L{counter[0]}\u3000é', f'\u00a0L{counter[0]} é', f'L{counter[0]} é\u3000'])
     def elem(depth, ind):
         kind = rnd.choice(['tl_past', 'tl_future', 'rm_hit', 'rm_miss', 'skip', 'unreg'])
         unwrap = rnd.random() < 0.35
@@ -383,20 +385,20 @@ def gen_blocks(seed, big):
         if not (alive and not e['ready']):
             pass
         if alive and not e['ready']:
-            exp.append(src[-1].strip())
+            exp.append(src[-1].strip(WS))
         inner = e['inner']
         can_unwrap = e['unwrap'] and len(inner) >= 2 and inner[0][0] == 'line' and inner[-1][0] == 'line'
         for i, (k, x) in enumerate(inner):
             if k == 'line':
                 src.append(x)
                 wrapper = e['unwrap'] and e['ready'] and can_unwrap and i in (0, len(inner) - 1)
-                if alive and not gone_all and not wrapper and x.strip():
-                    exp.append(x.strip())
+                if alive and not gone_all and not wrapper and x.strip(WS):
+                    exp.append(x.strip(WS))
             else:
                 render(x, ds, de, alive and not gone_all, src, exp)
         src.append(f"{e['ind']}{ds}/{e['tag']}{de}")
         if alive and not e['ready']:
-            exp.append(src[-1].strip())
+            exp.append(src[-1].strip(WS))
         return can_unwrap
     for _ in range(800 if big else 250):
         ds, de = rnd.choice([('<', '>'), ('<!-- <', '> -->'), ('/* <', '> */')])
@@ -463,7 +465,7 @@ def gen_list_all(seed, big):
 
 
 def strip_ws(t):
-    return ''.join(t.split())
+    return ''.join(ch for ch in t if ch not in WS)
 
 
 def gen_inline(seed, big):
@@ -471,7 +473,7 @@ def gen_inline(seed, big):
     input minus the removable extents of the ready (default strategy) elements"""
     rnd = random.Random(seed + 5)
     out = []
-    words = ['abc', 'x = 1;', 'これは期間限定', 'é', '😀 ok', '}', 'if (a) {', '']
+    words = ['abc', 'x = 1;', 'これは期間限定', 'é', '😀 ok', '}', 'if (a) {', '', 'a\u3000b', '\u00a0;']
     blanks = ['', ' ', '  ', '\t', '\n', '\n  ', ' \n', '\n\n']
     for _ in range(1500 if big else 500):
         ds, de = rnd.choice([('<', '>'), ('<!-- <', '> -->'), ('/* <', '> */')])
@@ -636,7 +638,7 @@ def gen_dedent_nested(seed, big):
         def oracle(r, exp=exp, source=source):
             if not r.get('ok'):
                 return 'clean panicked: ' + str(r.get('panic'))[:160]
-            got = [l for l in r['output'].split('\n') if l.strip()]
+            got = [l for l in r['output'].split('\n') if l.strip(WS)]
             if got != exp:
                 k = next((i for i, (a, b) in enumerate(zip(got, exp)) if a != b), min(len(got), len(exp)))
                 return f'nested unwrap: surviving line {k} is {got[k] if k < len(got) else None!r}, expected {exp[k] if k < len(exp) else None!r} (source {source!r})'
@@ -650,11 +652,11 @@ def gen_nested_text_survives(seed, big):
     depth 1..3): the text of every surviving line is still there, in order - indentation is not looked at here"""
     out = []
     for req, _ in gen_dedent_nested(seed + 200, big):
-        want = [l.strip() for l in req['_exp']]
+        want = [l.strip(WS) for l in req['_exp']]
         def oracle(r, want=want, src=req['source']):
             if not r.get('ok'):
                 return 'clean panicked: ' + str(r.get('panic'))[:160]
-            got = [l.strip() for l in r['output'].split('\n') if l.strip()]
+            got = [l.strip(WS) for l in r['output'].split('\n') if l.strip(WS)]
             if got != want:
                 return f'text outside the removed extents is missing or changed: lines {got}, expected {want} (source {src!r})'
             return None
@@ -668,11 +670,11 @@ def gen_unwrap_lines_intact(seed, big):
     out = []
     for req, _ in gen_dedent(seed + 100, big):
         src = req['source']
-        want = [l.strip() for l in src.split('\n') if l.strip() and 'unwrap-block' not in l and l.strip() not in ('if a {', '}', f'</{RM}>')]
+        want = [l.strip(WS) for l in src.split('\n') if l.strip(WS) and 'unwrap-block' not in l and l.strip(WS) not in ('if a {', '}', f'</{RM}>')]
         def oracle(r, want=want, src=src):
             if not r.get('ok'):
                 return 'clean panicked: ' + str(r.get('panic'))[:160]
-            got = [l.strip() for l in r['output'].split('\n') if l.strip()]
+            got = [l.strip(WS) for l in r['output'].split('\n') if l.strip(WS)]
             if got != want:
                 return f'unwrapped body: trimmed surviving lines are {got}, expected {want} (source {src!r})'
             return None
@@ -699,11 +701,11 @@ def gen_unwrap_wrappers(seed, big):
         close = RM if tag.startswith(RM) else TL
         lines = [pre, ind + f'<{tag}>', w1] + body + [w2, ind + f'</{close}>'] + ([post] if post else [])
         src = '\n'.join(lines) + ('\n' if rnd.random() < 0.7 else '')
-        want = [pre.strip()] + [l.strip() for l in body] + ([post.strip()] if post else [])
+        want = [pre.strip(WS)] + [l.strip(WS) for l in body] + ([post.strip(WS)] if post else [])
         def oracle(r, want=want, src=src):
             if not r.get('ok'):
                 return 'clean panicked: ' + str(r.get('panic'))[:160]
-            got = [l.strip() for l in r['output'].split('\n') if l.strip()]
+            got = [l.strip(WS) for l in r['output'].split('\n') if l.strip(WS)]
             if got != want:
                 return f'unwrap-block: surviving lines (trimmed) are {got}, expected {want} (source {src!r})'
             return None
@@ -745,7 +747,7 @@ def gen_dedent_crlf(seed, big):
             if not r.get('ok'):
                 return 'clean panicked: ' + str(r.get('panic'))[:160]
             o = r['output']
-            got = [l.rstrip('\r') for l in o.split('\n') if l.strip()]
+            got = [l.rstrip('\r') for l in o.split('\n') if l.strip(WS)]
             if got != exp:
                 return f'CRLF unwrap-block: non-blank lines are {got}, expected {exp} (source {source!r})'
             if o.count('\r\n') != o.count('\n') or o.count('\r') != o.count('\n'):
@@ -762,11 +764,11 @@ def gen_unwrap_lines_intact_crlf(seed, big):
     for req, _ in gen_dedent_crlf(seed + 101, big):
         src = req['source']
         ls = src.split('\r\n')
-        want = [l.strip() for l in ls if l.strip() and 'unwrap-block' not in l and l.strip() not in ('if a {', '}', f'</{RM}>')]
+        want = [l.strip(WS) for l in ls if l.strip(WS) and 'unwrap-block' not in l and l.strip(WS) not in ('if a {', '}', f'</{RM}>')]
         def oracle(r, want=want, src=src):
             if not r.get('ok'):
                 return 'clean panicked: ' + str(r.get('panic'))[:160]
-            got = [l.strip() for l in r['output'].split('\n') if l.strip()]
+            got = [l.strip(WS) for l in r['output'].split('\n') if l.strip(WS)]
             if got != want:
                 return f'unwrapped body (CRLF): trimmed surviving lines are {got}, expected {want} (source {src!r})'
             return None
@@ -792,12 +794,12 @@ def gen_unwrap_four_lines(seed, big):
         close = RM if tag.startswith(RM) else TL
         lines = ['before();', ind + f'<{tag}>', w1] + body + [w2, ind + f'</{close}>', 'after();']
         src = '\n'.join(lines) + '\n'
-        want = ['before();'] + [l.strip() for l in body] + ['after();']
+        want = ['before();'] + [l.strip(WS) for l in body] + ['after();']
         def oracle(r, want=want, src=src):
             if not r.get('ok'):
                 return 'clean panicked: ' + str(r.get('panic'))[:160]
             o = r['output']
-            got = [l.strip() for l in (o[:-1] if o.endswith('\n') else o).split('\n')]
+            got = [l.strip(WS) for l in (o[:-1] if o.endswith('\n') else o).split('\n')]
             if got != want:
                 return f'unwrap-block: the output has lines {got}, expected exactly the input minus four lines {want} (source {src!r})'
             return None
@@ -811,11 +813,11 @@ def gen_unwrap_crlf_text(seed, big):
     out = []
     for req, _ in gen_dedent_crlf(seed + 300, big):
         src = req['source']
-        want = [l.strip() for l in src.split('\r\n') if l.strip() and 'unwrap-block' not in l and l.strip() not in ('if a {', '}', f'</{RM}>')]
+        want = [l.strip(WS) for l in src.split('\r\n') if l.strip(WS) and 'unwrap-block' not in l and l.strip(WS) not in ('if a {', '}', f'</{RM}>')]
         def oracle(r, want=want, src=src):
             if not r.get('ok'):
                 return 'clean panicked: ' + str(r.get('panic'))[:160]
-            got = [l.strip() for l in r['output'].split('\n') if l.strip()]
+            got = [l.strip(WS) for l in r['output'].split('\n') if l.strip(WS)]
             if got != want:
                 return f'CRLF unwrap-block: the non-blank lines of the output are {got}, expected the input minus tag and wrapper lines {want} (source {src!r})'
             return None
@@ -883,7 +885,7 @@ def gen_blanklines(seed, big):
                         if not r.get('ok'):
                             return 'clean panicked: ' + str(r.get('panic'))[:160]
                         lines = r['output'].split('\n')
-                        nb = [l for l in lines if l.strip()]
+                        nb = [l for l in lines if l.strip(WS)]
                         if nb != [ind + 'X é', ind + 'Y']:
                             return f'surviving lines not intact: {nb}'
                         i0 = lines.index(ind + 'X é'); i1 = lines.index(ind + 'Y')
@@ -907,7 +909,7 @@ def gen_lines_intact(seed, big):
                         def oracle(r, ind2=ind2):
                             if not r.get('ok'):
                                 return 'clean panicked: ' + str(r.get('panic'))[:160]
-                            nb = [l for l in r['output'].split('\n') if l.strip()]
+                            nb = [l for l in r['output'].split('\n') if l.strip(WS)]
                             if nb != [ind2 + 'keep(); é']:
                                 return f'surviving line not intact: {nb} (output {r["output"]!r})'
                             return None
